@@ -42,6 +42,16 @@ def main():
         if _escape_value(v) != b"".join(img.get(c, bytes([c])) for c in v):
             if len(assumption_failures) < 3:
                 assumption_failures.append({"what": "_escape_value is not the per-byte image concatenation assumed by the reader-side contracts (ESC_SPEC)", "value": v.hex(), "escaped": _escape_value(v).hex()})
+    from dulwich.config import _escape_subsection, _unescape_subsection
+    for v in values:
+        if 10 in v or 0 in v:
+            continue
+        cases += 1
+        if _escape_subsection(v) != b"".join((b"\\" + bytes([c])) if c in (92, 34) else bytes([c]) for c in v):
+            if len(assumption_failures) < 3:
+                assumption_failures.append({"what": "_escape_subsection is not the per-byte image concatenation assumed by _unescape_subsection#roundtrip", "value": v.hex(), "escaped": _escape_subsection(v).hex()})
+        if _unescape_subsection(_escape_subsection(v)) != v:
+            fail("subsection name round trip", {"value": v.hex(), "escaped": _escape_subsection(v).hex(), "read": _unescape_subsection(_escape_subsection(v)).hex()})
     for v in values:
         cases += 1
         try:
